@@ -211,6 +211,26 @@ def readDescription (c : Interval α) (desc : List Char) : ReadOut α :=
     readCore c (desc.head? == some '[') ((desc.drop dc).head? == some ']') deb fin
   | _, _ => .done c true
 
+/-- a number text `toDouble` accepts whose exact decimal value no double can stand for: at least
+`2^1024` in magnitude (the stream extraction stores `±DBL_MAX` and sets a fail bit that
+`TextTools::fromString` ignores) or non-zero and below `2^-1075` (stored as 0).  Exponents of more
+than four digits are not evaluated here. -/
+def outOfRangeText (t : List Char) : Bool :=
+  if !isDecimalNumber t || t.length > 40 then false else
+  let ex := (t.dropWhile (· != 'e')).drop 1
+  if ex.length > 5 then false else
+  let q := Bpp.Text.Number.streamDouble t
+  let a := if q < 0 then -q else q
+  decide (a ≥ ((2 ^ 1024 : Nat) : Rat)) || (decide (a ≠ 0) && decide (a < 1 / ((2 ^ 1075 : Nat) : Rat)))
+
+/-- one of the two bound texts of a well-formed description is such a numeral -/
+def descOutOfRange (desc : List Char) : Bool :=
+  match findSemi desc, findBracket1 desc with
+  | some pdp, some dc =>
+    if (desc.head? != some ']' && desc.head? != some '[') || pdp ≥ dc then false else
+    outOfRangeText (trim ((desc.drop 1).take (pdp - 1))) || outOfRangeText (trim ((desc.drop (pdp + 1)).take (dc - pdp - 1)))
+  | _, _ => false
+
 namespace Legacy
 /-- `readDescription` as found: the texts between the delimiters reach `toDouble` with their blanks -/
 def readDescription (c : Interval α) (desc : List Char) : ReadOut α :=
